@@ -170,9 +170,17 @@ package parser
 //@        && p.inlineMovements[k].Scope == token.LOCAL))
 //@   && (forall a int, b int :: {p.inlineMovements[a], p.inlineMovements[b]} (0 <= a && a < b && b < len(p.inlineMovements)) ==> MovKey(p.inlineMovements[a].MovementCommands) != MovKey(p.inlineMovements[b].MovementCommands))
 
+// ---- completeness of the hoisting records (C06): 'holes' counts the argument slots left empty for hoisted content.
+// It is advanced where a command's records are produced (parseCommandStatement) and re-based where cases are
+// deliberately discarded (parsePoryswitchStatement); every function in between hands on exactly the records of
+// the holes made during its run - none is dropped, none is duplicated.
+//@ ghost var holes int
+//@ pred ImpSize(d *impData) = (d == nil ? 0 : len(d.texts) + len(d.movements))
+
 //@ func (d *impData) add
 //@   modifies d.texts, d.movements
 //@   ensures [C06:slot-add] (old(ImpOK(d)) && ImpOK(other)) ==> ImpOK(d)
+//@   ensures [C06:size-add] ImpSize(d) == old(ImpSize(d)) + (other == nil ? 0 : old(ImpSize(other)))
 //@ end
 
 //@ func getMovementsKey
@@ -235,6 +243,8 @@ package parser
 //@   ensures [C11:cmd-name] (result3 == nil && result1 != nil) ==> (result1.Name != nil && result1.Name.Value == old(p.peekToken.Literal))
 //@   ensures [C11,C18:autovar-taken] (result3 == nil && old(p.peekToken.Type) != token.VAR) ==> (result0 != nil && result1 != nil)
 //@   ensures [C06:slot] result3 == nil ==> (ImpOK(result2) && (result2 == nil || fresh(result2)))
+//@   modifies holes
+//@   ensures [C06:complete] result3 == nil ==> ImpSize(result2) == holes - old(holes)
 //@   ensures [C11,C18:autovar-results] (result3 == nil && result1 != nil) ==> (result0 != nil && fresh(result1))
 //@   ensures [C11,C18:autovar-var] (result3 == nil && result1 == nil) ==> result0 == nil
 //@   ensures [C20:stack-balanced] result3 == nil ==> (SameStack(p.breakStack, old(p.breakStack)) && SameStack(p.continueStack, old(p.continueStack)))
@@ -263,10 +273,13 @@ package parser
 // ParseProgram: texts (hoisted and explicit) and movements (hoisted and explicit) have pairwise distinct names in a
 // program that is returned; a clash is an error (C06, C20)
 //@ func (p *Parser) ParseProgram
+//@   modifies holes
 //@   requires [C18:pstate] PInv(p) && StackOK(p.breakStack) && StackOK(p.continueStack) && allocated(p.constants) && allocated(p.inlineTextCounts) && allocated(p.inlineMovementCounts)
 //@   requires [C18:pstate] p.constants != p.inlineMovementsSet
 //@   modifies fields(p), fields(p.l), fields(p.constants), fields(p.inlineTextCounts), fields(p.inlineMovementCounts), allof(ast.CommandStatement.Args)
 //@   ensures [C06,C20:text-names] result1 == nil ==> (result0 != nil && (forall a int, b int :: {result0.Texts[a], result0.Texts[b]} (0 <= a && a < b && b < len(result0.Texts)) ==> result0.Texts[a].Name != result0.Texts[b].Name))
+//@   ensures [C06,C20:move-names] result1 == nil ==> (forall a int, b int :: {result0.TopLevelStatements[a], result0.TopLevelStatements[b]} (0 <= a && a < b && b < len(result0.TopLevelStatements) && typeis(result0.TopLevelStatements[a], ast.MovementStatement) && typeis(result0.TopLevelStatements[b], ast.MovementStatement))
+//@               ==> as(result0.TopLevelStatements[a], ast.MovementStatement).Name.Value != as(result0.TopLevelStatements[b], ast.MovementStatement).Name.Value)
 //@   loop 1
 //@     invariant [C18:pstate-inv] PState(p) && p.l == old(p.l) && p.l.input == old(p.l.input) && fresh(p.inlineTextsSet) && fresh(p.inlineMovementsSet) && p.constants == old(p.constants) && p.inlineTextCounts == old(p.inlineTextCounts) && p.inlineMovementCounts == old(p.inlineMovementCounts)
 //@     invariant [C06:tables-inv] TextTableOK(p) && MoveTableOK(p)
@@ -283,9 +296,15 @@ package parser
 //@   loop 5
 //@     invariant [C18:program] program != nil && fresh(program) && movementNames != nil && fresh(movementNames) && (forall k int :: {program.TopLevelStatements[k]} (0 <= k && k < len(program.TopLevelStatements)) ==> MoveNamed(program.TopLevelStatements[k]))
 //@        && (forall nm string :: {indom(movementNames, nm)} indom(movementNames, nm) ==> allocated(movementNames[nm]))
+//@     invariant [C06,C20:move-names-inv] $i <= len(program.TopLevelStatements)
+//@        && (forall a int :: {program.TopLevelStatements[a]} (0 <= a && a < $i && typeis(program.TopLevelStatements[a], ast.MovementStatement)) ==> indom(movementNames, as(program.TopLevelStatements[a], ast.MovementStatement).Name.Value))
+//@        && (forall a int, b int :: {program.TopLevelStatements[a], program.TopLevelStatements[b]} (0 <= a && a < b && b < $i && typeis(program.TopLevelStatements[a], ast.MovementStatement) && typeis(program.TopLevelStatements[b], ast.MovementStatement))
+//@               ==> as(program.TopLevelStatements[a], ast.MovementStatement).Name.Value != as(program.TopLevelStatements[b], ast.MovementStatement).Name.Value)
+//@        && (forall nm string :: {indom(movementNames, nm)} indom(movementNames, nm) ==> (exists a int :: 0 <= a && a < $i && typeis(program.TopLevelStatements[a], ast.MovementStatement) && as(program.TopLevelStatements[a], ast.MovementStatement).Name.Value == nm))
 //@ end
 
 //@ func (p *Parser) parseTopLevelStatement
+//@   modifies holes
 //@   include TopFrame
 //@   ensures [C18:mov-named] result1 == nil ==> MoveNamed(result0)
 //@   requires [C18:text-stmts] TextStmtsOK(p)
@@ -366,6 +385,8 @@ package parser
 //@ func (p *Parser) parseScriptStatement
 //@   include ParseFrame
 //@   ensures [C06:slot] result2 == nil ==> (ImpOK(result1) && (result1 == nil || fresh(result1)))
+//@   modifies holes
+//@   ensures [C06:complete] result2 == nil ==> ImpSize(result1) == holes - old(holes)
 //@   ensures [C20:stack-balanced] result2 == nil ==> (SameStack(p.breakStack, old(p.breakStack)) && SameStack(p.continueStack, old(p.continueStack)))
 //@   loopinv [C20:stack-balanced-inv] SameStack(p.breakStack, old(p.breakStack)) && SameStack(p.continueStack, old(p.continueStack))
 //@ end
@@ -373,7 +394,10 @@ package parser
 //@ func (p *Parser) parseBlockStatement
 //@   include ParseFrame
 //@   loopinv [C06:slot-inv] impData != nil && fresh(impData) && ImpOK(impData)
+//@   loopinv [C06:complete-inv] ImpSize(impData) == holes - old(holes)
 //@   ensures [C06:slot] result2 == nil ==> (ImpOK(result1) && (result1 == nil || fresh(result1)))
+//@   modifies holes
+//@   ensures [C06:complete] result2 == nil ==> ImpSize(result1) == holes - old(holes)
 //@   ensures [C20:stack-balanced] result2 == nil ==> (SameStack(p.breakStack, old(p.breakStack)) && SameStack(p.continueStack, old(p.continueStack)))
 //@   loopinv [C20:stack-balanced-inv] SameStack(p.breakStack, old(p.breakStack)) && SameStack(p.continueStack, old(p.continueStack))
 //@ end
@@ -381,7 +405,10 @@ package parser
 //@ func (p *Parser) parseSwitchBlockStatement
 //@   include ParseFrame
 //@   loopinv [C06:slot-inv] impData != nil && fresh(impData) && ImpOK(impData)
+//@   loopinv [C06:complete-inv] ImpSize(impData) == holes - old(holes)
 //@   ensures [C06:slot] result2 == nil ==> (ImpOK(result1) && (result1 == nil || fresh(result1)))
+//@   modifies holes
+//@   ensures [C06:complete] result2 == nil ==> ImpSize(result1) == holes - old(holes)
 //@   ensures [C20:stack-balanced] result2 == nil ==> (SameStack(p.breakStack, old(p.breakStack)) && SameStack(p.continueStack, old(p.continueStack)))
 //@   loopinv [C20:stack-balanced-inv] SameStack(p.breakStack, old(p.breakStack)) && SameStack(p.continueStack, old(p.continueStack))
 //@ end
@@ -389,6 +416,8 @@ package parser
 //@ func (p *Parser) parseStatement
 //@   include ParseFrame
 //@   ensures [C06:slot] result2 == nil ==> (ImpOK(result1) && (result1 == nil || fresh(result1)))
+//@   modifies holes
+//@   ensures [C06:complete] result2 == nil ==> ImpSize(result1) == holes - old(holes)
 //@   ensures [C20:stack-balanced] result2 == nil ==> (SameStack(p.breakStack, old(p.breakStack)) && SameStack(p.continueStack, old(p.continueStack)))
 //@   loopinv [C20:stack-balanced-inv] SameStack(p.breakStack, old(p.breakStack)) && SameStack(p.continueStack, old(p.continueStack))
 //@ end
@@ -401,6 +430,8 @@ package parser
 //@   loopinv [C06:slot-inv] forall k int :: {impData.movements[k]} (0 <= k && k < len(impData.movements)) ==> (impData.movements[k].command == command && 0 <= impData.movements[k].argPos
 //@          && (impData.movements[k].argPos < len(command.Args) || (impData.movements[k].argPos == len(command.Args) && len(argParts) > 0)))
 //@   ensures [C06:slot] result2 == nil ==> (ImpOK(result1) && (result1 == nil || fresh(result1)))
+//@   modifies holes
+//@   defines [C06:holes] holes = old(holes) + ImpSize(result1)
 //@   ensures [C18:cmd-fresh] result2 == nil ==> (result0 != nil && fresh(result0))
 //@   ensures [C20:stack-balanced] result2 == nil ==> (SameStack(p.breakStack, old(p.breakStack)) && SameStack(p.continueStack, old(p.continueStack)))
 //@   loopinv [C20:stack-balanced-inv] SameStack(p.breakStack, old(p.breakStack)) && SameStack(p.continueStack, old(p.continueStack))
@@ -410,6 +441,8 @@ package parser
 //@   ensures [C10:name] result2 == nil ==> (result0.Name != nil && result0.Name.Value == old(p.curToken.Literal) && result0.Token == old(p.curToken))
 //@   loop 1
 //@     invariant [C10:name-inv] command.Name != nil && fresh(command.Name) && command.Name.Value == old(p.curToken.Literal) && command.Token == old(p.curToken)
+//@     transition [C06:record] len(impData.texts) + len(impData.movements) == prev(len(impData.texts) + len(impData.movements))
+//@          + ((prev(p.curToken.Type) == token.FORMAT || prev(p.curToken.Type) == token.STRING || prev(p.curToken.Type) == token.STRINGTYPE || prev(p.curToken.Type) == token.MOVES) ? 1 : 0)
 //@     transition [C10:one-token] prev(p.curToken.Type) == token.COMMA
 //@        ? (command.Args == snoc(prev(command.Args), joinStr(prev(argParts), " ")) && len(argParts) == 0)
 //@        : (command.Args == prev(command.Args) && argParts == snoc(prev(argParts),
@@ -523,7 +556,10 @@ package parser
 //@ func (p *Parser) parseMapscriptsStatement
 //@   include ParseFrame
 //@   loopinv [C06:slot-inv] impData != nil && fresh(impData) && ImpOK(impData)
+//@   loopinv [C06:complete-inv] ImpSize(impData) == holes - old(holes)
 //@   ensures [C06:slot] result2 == nil ==> (ImpOK(result1) && (result1 == nil || fresh(result1)))
+//@   modifies holes
+//@   ensures [C06:complete] result2 == nil ==> ImpSize(result1) == holes - old(holes)
 //@   ensures [C20:stack-balanced] result2 == nil ==> (SameStack(p.breakStack, old(p.breakStack)) && SameStack(p.continueStack, old(p.continueStack)))
 //@   loopinv [C20:stack-balanced-inv] SameStack(p.breakStack, old(p.breakStack)) && SameStack(p.continueStack, old(p.continueStack))
 //@ end
@@ -543,7 +579,10 @@ package parser
 //@ func (p *Parser) parseIfStatement
 //@   include ParseFrame
 //@   loopinv [C06:slot-inv] impData != nil && fresh(impData) && ImpOK(impData)
+//@   loopinv [C06:complete-inv] ImpSize(impData) == holes - old(holes)
 //@   ensures [C06:slot] result2 == nil ==> (ImpOK(result1) && (result1 == nil || fresh(result1)))
+//@   modifies holes
+//@   ensures [C06:complete] result2 == nil ==> ImpSize(result1) == holes - old(holes)
 //@   ensures [C20:stack-balanced] result2 == nil ==> (SameStack(p.breakStack, old(p.breakStack)) && SameStack(p.continueStack, old(p.continueStack)))
 //@   loopinv [C20:stack-balanced-inv] SameStack(p.breakStack, old(p.breakStack)) && SameStack(p.continueStack, old(p.continueStack))
 //@ end
@@ -551,6 +590,8 @@ package parser
 //@ func (p *Parser) parseWhileStatement
 //@   include ParseFrame
 //@   ensures [C06:slot] result2 == nil ==> (ImpOK(result1) && (result1 == nil || fresh(result1)))
+//@   modifies holes
+//@   ensures [C06:complete] result2 == nil ==> ImpSize(result1) == holes - old(holes)
 //@   ensures [C20:stack-balanced] result2 == nil ==> (SameStack(p.breakStack, old(p.breakStack)) && SameStack(p.continueStack, old(p.continueStack)))
 //@   loopinv [C20:stack-balanced-inv] SameStack(p.breakStack, old(p.breakStack)) && SameStack(p.continueStack, old(p.continueStack))
 //@ end
@@ -558,6 +599,8 @@ package parser
 //@ func (p *Parser) parseDoWhileStatement
 //@   include ParseFrame
 //@   ensures [C06:slot] result2 == nil ==> (ImpOK(result1) && (result1 == nil || fresh(result1)))
+//@   modifies holes
+//@   ensures [C06:complete] result2 == nil ==> ImpSize(result1) == holes - old(holes)
 //@   ensures [C20:stack-balanced] result2 == nil ==> (SameStack(p.breakStack, old(p.breakStack)) && SameStack(p.continueStack, old(p.continueStack)))
 //@   loopinv [C20:stack-balanced-inv] SameStack(p.breakStack, old(p.breakStack)) && SameStack(p.continueStack, old(p.continueStack))
 //@ end
@@ -577,7 +620,10 @@ package parser
 //@ func (p *Parser) parseSwitchStatement
 //@   include ParseFrame
 //@   loopinv [C06:slot-inv] resultImpData != nil && fresh(resultImpData) && ImpOK(resultImpData)
+//@   loopinv [C06:complete-inv] ImpSize(resultImpData) == holes - old(holes)
 //@   ensures [C06:slot] result3 == nil ==> (ImpOK(result2) && (result2 == nil || fresh(result2)))
+//@   modifies holes
+//@   ensures [C06:complete] result3 == nil ==> ImpSize(result2) == holes - old(holes)
 //@   ensures [C20:stack-balanced] result3 == nil ==> (SameStack(p.breakStack, old(p.breakStack)) && SameStack(p.continueStack, old(p.continueStack)))
 // inside the statement the switch is the innermost break target: breakStack == old(breakStack) ++ [statement]
 //@   loopinv [C20:stack-balanced-inv] SameStack(p.continueStack, old(p.continueStack)) && statement != nil && len(p.breakStack) == len(old(p.breakStack)) + 1
@@ -594,6 +640,8 @@ package parser
 //@ func (p *Parser) parseConditionExpression
 //@   include ParseFrame
 //@   ensures [C06:slot] result2 == nil ==> (ImpOK(result1) && (result1 == nil || fresh(result1)))
+//@   modifies holes
+//@   ensures [C06:complete] result2 == nil ==> ImpSize(result1) == holes - old(holes)
 //@   ensures [C20:stack-balanced] result2 == nil ==> (SameStack(p.breakStack, old(p.breakStack)) && SameStack(p.continueStack, old(p.continueStack)))
 //@   loopinv [C20:stack-balanced-inv] SameStack(p.breakStack, old(p.breakStack)) && SameStack(p.continueStack, old(p.continueStack))
 //@ end
@@ -601,6 +649,8 @@ package parser
 //@ func (p *Parser) parseBooleanExpression
 //@   include ParseFrame
 //@   ensures [C06:slot] result2 == nil ==> (ImpOK(result1) && (result1 == nil || fresh(result1)))
+//@   modifies holes
+//@   ensures [C06:complete] result2 == nil ==> ImpSize(result1) == holes - old(holes)
 //@   ensures [C20:stack-balanced] result2 == nil ==> (SameStack(p.breakStack, old(p.breakStack)) && SameStack(p.continueStack, old(p.continueStack)))
 //@   loopinv [C20:stack-balanced-inv] SameStack(p.breakStack, old(p.breakStack)) && SameStack(p.continueStack, old(p.continueStack))
 //@ end
@@ -608,6 +658,8 @@ package parser
 //@ func (p *Parser) parseRightSideExpression
 //@   include ParseFrame
 //@   ensures [C06:slot] result2 == nil ==> (ImpOK(result1) && (result1 == nil || fresh(result1)))
+//@   modifies holes
+//@   ensures [C06:complete] result2 == nil ==> ImpSize(result1) == holes - old(holes)
 //@   ensures [C20:stack-balanced] result2 == nil ==> (SameStack(p.breakStack, old(p.breakStack)) && SameStack(p.continueStack, old(p.continueStack)))
 //@   loopinv [C20:stack-balanced-inv] SameStack(p.breakStack, old(p.breakStack)) && SameStack(p.continueStack, old(p.continueStack))
 //@ end
@@ -619,6 +671,8 @@ package parser
 //@   exit [C11:no-preamble] (result2 == nil && !isAutoVar) ==> (result0 != nil && result0.PreambleStatement == nil)
 //@   exit [C11:not-compares-zero] (result2 == nil && usedNotOperator && result0.Type == token.VAR) ==> (result0.Operator == token.EQ && result0.ComparisonValue == "0")
 //@   ensures [C06:slot] result2 == nil ==> (ImpOK(result1) && (result1 == nil || fresh(result1)))
+//@   modifies holes
+//@   ensures [C06:complete] result2 == nil ==> ImpSize(result1) == holes - old(holes)
 //@   ensures [C18:leaf-fresh] result2 == nil ==> (result0 != nil && fresh(result0))
 //@   ensures [C20:stack-balanced] result2 == nil ==> (SameStack(p.breakStack, old(p.breakStack)) && SameStack(p.continueStack, old(p.continueStack)))
 //@   loopinv [C20:stack-balanced-inv] SameStack(p.breakStack, old(p.breakStack)) && SameStack(p.continueStack, old(p.continueStack))
@@ -646,6 +700,8 @@ package parser
 //@   exit [C12:select-imp] result2 == nil ==> (indom(cases, switchValue) ? result1 == caseImpData[switchValue] : (indom(cases, "_") ? result1 == caseImpData["_"] : result1 == nil))
 //@   exit [C12:no-case] (result2 == nil && p.enableEnvironmentErrors) ==> (indom(cases, switchValue) || indom(cases, "_"))
 //@   ensures [C06:slot] result2 == nil ==> (ImpOK(result1) && (result1 == nil || fresh(result1)))
+//@   modifies holes
+//@   defines [C06:holes] holes = old(holes) + ImpSize(result1)
 //@   ensures [C20:stack-balanced] result2 == nil ==> (SameStack(p.breakStack, old(p.breakStack)) && SameStack(p.continueStack, old(p.continueStack)))
 //@   loopinv [C20:stack-balanced-inv] SameStack(p.breakStack, old(p.breakStack)) && SameStack(p.continueStack, old(p.continueStack))
 //@ end
@@ -656,6 +712,7 @@ package parser
 //@   loopinv [C12:same-keys-inv] statementCases != nil && fresh(statementCases) && (forall key string :: {indom(statementCases, key)} {indom(impDatas, key)} indom(statementCases, key) == indom(impDatas, key))
 //@   loopinv [C06:slot-inv] impDatas != nil && fresh(impDatas) && (forall key string :: {indom(impDatas, key)} indom(impDatas, key) ==> (ImpOK(impDatas[key]) && (impDatas[key] == nil || fresh(impDatas[key]))))
 //@   ensures [C06:slot] result2 == nil ==> (forall key string :: {indom(result1, key)} indom(result1, key) ==> (ImpOK(result1[key]) && (result1[key] == nil || fresh(result1[key]))))
+//@   modifies holes
 //@   ensures [C20:stack-balanced] result2 == nil ==> (SameStack(p.breakStack, old(p.breakStack)) && SameStack(p.continueStack, old(p.continueStack)))
 //@   loopinv [C20:stack-balanced-inv] SameStack(p.breakStack, old(p.breakStack)) && SameStack(p.continueStack, old(p.continueStack))
 //@ end
@@ -663,7 +720,10 @@ package parser
 //@ func (p *Parser) parsePoryswitchStatements
 //@   include ParseFrame
 //@   loopinv [C06:slot-inv] impData != nil && fresh(impData) && ImpOK(impData)
+//@   loopinv [C06:complete-inv] ImpSize(impData) == holes - old(holes)
 //@   ensures [C06:slot] result2 == nil ==> (ImpOK(result1) && (result1 == nil || fresh(result1)))
+//@   modifies holes
+//@   ensures [C06:complete] result2 == nil ==> ImpSize(result1) == holes - old(holes)
 //@   ensures [C20:stack-balanced] result2 == nil ==> (SameStack(p.breakStack, old(p.breakStack)) && SameStack(p.continueStack, old(p.continueStack)))
 //@   loopinv [C20:stack-balanced-inv] SameStack(p.breakStack, old(p.breakStack)) && SameStack(p.continueStack, old(p.continueStack))
 //@ end
